@@ -302,6 +302,30 @@ def main():
                 'fault_log': results[0]['faultlog'][:8],
                 'wall_s': round(results[0]['wall'], 2)})
     rep.cov['runs'] = len(results)
+    # a golden run that lacks a configured match string (Main.tla: outcome
+    # "nomatch") stops ddSMT with status 1 before any minimisation: one or
+    # both strings configured, the golden run on time or timed out
+    sys.path.insert(0, os.path.dirname(os.path.abspath(__file__)))
+    import c04 as C4
+    nomatch = ['match-out-absent', 'match-err-absent',
+               'match-both-out-absent', 'match-both-err-absent',
+               'golden-timeout-match-out', 'golden-timeout-match-err']
+    for k, f in enumerate(nomatch):
+        for st in (('ddmin', 'hierarchical') if a.tier == 'quick'
+                   else ('ddmin', 'hierarchical', 'hybrid')):
+            sit = {'flag': 'none', 'fault': f, 'entry': 'module',
+                   'strategy': st, 'outcome': 'nomatch', 'status': 1}
+            r = C4.usage_run(1000 + k, sit)
+            rep.count()
+            rep.nontrivial('nomatch:' + f + ':' + st)
+            if r.timed_out or r.status != 1 or len(r.cmdlog) > 1:
+                rep.violation(
+                    f'nomatch-not-stopped:{f}:{st}',
+                    f'{f} ({st}): exit status {r.status}, the command was '
+                    f'run {len(r.cmdlog)} times; ddSMT must stop with status '
+                    f'1 after the golden run', {'cfg': sit})
+            import shutil
+            shutil.rmtree(r.workdir, ignore_errors=True)
     return rep.finish()
 
 
